@@ -362,6 +362,22 @@ impl Storage {
 
         batch.commit().expect("batch commit should be ok");
 
+        // The pending matched blocks are discarded below, so the block filters have to be synced
+        // again from the lowest block number recorded for any script (a number only advances when
+        // no matched blocks are pending).
+        let min_recorded_number = self
+            .get_filter_scripts()
+            .into_iter()
+            .map(|ss| ss.block_number)
+            .min();
+        let had_matched_blocks = self.get_earliest_matched_blocks().is_some();
+        let min_block_number = match (min_block_number, min_recorded_number) {
+            (Some(n), Some(m)) if had_matched_blocks => Some(n.min(m)),
+            (None, Some(m)) if had_matched_blocks => {
+                Some(m.min(self.get_min_filtered_block_number()))
+            }
+            (n, _) => n,
+        };
         if let Some(min_number) = min_block_number {
             self.update_min_filtered_block_number(min_number);
         }
